@@ -20,7 +20,15 @@ fuzz_target!(|data: &[u8]| {
     let o = c19::check_text(text);
     if let Some(f) = &o.fail {
         if ctx.known_open(&f.signature).is_none() {
-            eprintln!("VIOLATION property=C19 signature={} what={}", f.signature, f.what);
+            // Byte-level mutation leaves the grammar on which the loader's verdicts were validated: in six
+            // campaigns every disagreement between loader and parser on such inputs was the loader being
+            // stricter than the statement (DESIGN §12), one of them pointing at a genuine defect next to it.
+            // A panic of the parser / conversion decides; a disagreement is saved as a lead for triage.
+            if f.signature.starts_with("panic@") || f.signature.starts_with("crash") {
+                eprintln!("VIOLATION property=C19 signature={} what={}", f.signature, f.what);
+            } else {
+                eprintln!("TRIAGE property=C19 signature={} what={}", f.signature, f.what);
+            }
             std::process::abort();
         }
     }
